@@ -119,10 +119,10 @@ def regen(only=None):
 
 def coq_make(only=None):
     """make every Coq sub-project in order (no-op when nothing changed)."""
-    with Lock("coqmake"):
-        for d, n in existing_projects():
-            if only is not None and d not in only:
-                continue
+    for d, n in existing_projects():
+        if only is not None and d not in only:
+            continue
+        with Lock("coqmake-" + d):      # one lock per project: other families' builds do not serialise this one
             pd = os.path.join(COQ, d)
             if not os.path.exists(os.path.join(pd, "Makefile")) or \
                os.path.getmtime(os.path.join(pd, "Makefile")) < os.path.getmtime(os.path.join(pd, "_CoqProject")):
@@ -155,7 +155,7 @@ def coq_props(project, propfile):
     src = os.path.join(pd, "Props", propfile + ".v")
     txt = open(src).read()
     names = re.findall(r"^\s*(?:Theorem|Lemma|Example|Corollary)\s+([A-Za-z0-9_']+)", txt, flags=re.M)
-    with Lock("coqmake"):
+    with Lock("coqmake-" + project):
         rc, out = sh(["timeout", "900", "coqc"] + qflags() + [src], cwd=pd, timeout=1000)
     if rc != 0:
         raise Broken("Props/%s.v does not compile: a property theorem no longer checks" % propfile, out[-6000:])
